@@ -76,11 +76,19 @@ def body_inherited_collision():
     return E, {"items": "list"}
 
 
-BODIES = [body_plain, body_user_code, body_collision, body_noncallable, body_inherited_collision]
+def body_two_plurals():
+    class F:
+        people: List[int] = []
+        persons: List[str] = []           # both singular forms are 'person': the second falls back (or decoration raises)
+    return F, {"people": "list", "persons": "list"}
+
+
+BODIES = [body_plain, body_user_code, body_collision, body_noncallable, body_inherited_collision, body_two_plurals]
 SCALAR = ["with_%s", "update_%s", "transform_%s", "reset_%s"]
 ELEMENT = ["with_%s", "update_%s", "transform_%s", "without_%s"]
 TOP = ["update", "transform", "reset"]
-SINGULAR = {"items": "item", "mapping": "mapping_item", "flags": "flag", "things": "thing", "children": "children_item"}
+SINGULAR = {"items": "item", "mapping": "mapping_item", "flags": "flag", "things": "thing", "children": "children_item",
+            "people": "person", "persons": "persons_item"}
 
 
 def check(bi):
@@ -89,7 +97,7 @@ def check(bi):
     try:
         dec = spec_class(bootstrap=True)(cls)
     except BaseException as e:      # noqa
-        if bi == 2 and isinstance(e, (ValueError, TypeError, RuntimeError)):
+        if bi in (2, 5) and isinstance(e, (ValueError, TypeError, RuntimeError)):
             return None                   # a singular-name collision may be refused outright
         return "decoration of %s raised %s: %s" % (cls.__name__, type(e).__name__, e)
     after = dict(dec.__dict__)
@@ -142,6 +150,10 @@ def check(bi):
         if not hasattr(dec, "with_items_item"):
             return "E(Base): no with_items_item fallback for the colliding singular name"
         return None
+    if bi == 5:
+        r = dec().with_person(1).with_persons_item("a")
+        if r.people != [1] or r.persons != ["a"]:
+            return "F: with_person(1).with_persons_item('a') gives people=%r persons=%r: one attribute's element helpers shadow the other's" % (r.people, r.persons)
     if bi == 1:
         if inst.with_x(1) != "mine" or inst.with_thing(1) != "mine too" or inst.update() != "user update" or repr(inst) != "B!":
             return "B: a user-written method was shadowed by a generated helper"
